@@ -189,7 +189,8 @@ Fixpoint cyc (pat cur : list QN) (o : list tok) : bool :=
 
 (* By C09_depths (proved for every batch size) get_depths returns, for spike k, a value that depends
    only on the features and the template of spike k: the periodic dataset is therefore judged spike by
-   spike against the model evaluated on one period. *)
+   spike against the model evaluated on one period -- exactly the statement of Props.C09_depths_periodic
+   (the model on the tiled dataset = the model on one period, repeated, for every batch size). *)
 Definition check_big (pos : mat) (data : list mat) (cols : mat) (st : list Z) (n : Z)
                      (o : option (option (list tok))) : list Z :=
   let di := mk_depth_in (zlen data) (Some (data, cols)) st pos in
